@@ -412,8 +412,8 @@ func (a *app) startInternalServer() {
 	}
 	stop := make(chan bool)
 	done := make(chan bool)
-	a.iServerStop = make(chan bool)
-	a.iServerDone = make(chan bool)
+	a.iServerStop = stop
+	a.iServerDone = done
 	go server.Serve(stop, done)
 }
 
